@@ -42,6 +42,7 @@ type OptSpec struct {
 	Recover  bool  `json:"recover"`
 	AutoSync bool  `json:"autosync"`
 	RO       bool  `json:"ro"`
+	CB       int   `json:"cb,omitempty"` // cold backup right after the open, before any query: 1 = Log.Backup, 2 = klevdb.Backup
 }
 
 type Op struct {
@@ -383,6 +384,9 @@ func (x *Exec) step(op *Op) {
 		if x.obs.Layout && !op.O.RO {
 			x.emitVersions("open", before, 0)
 		}
+		if op.O.CB > 0 {
+			x.backup(&Op{Op: "backup", Var: 2 | (op.O.CB - 1), Arg: 1})
+		}
 		x.observe()
 	case "close":
 		if x.l == nil {
@@ -561,6 +565,12 @@ func (x *Exec) observe() {
 				return
 			}
 		}
+	}
+	if x.obs.Stat { // first of all: index files that are missing are still missing (every query rebuilds what it touches)
+		st, err := x.l.Stat()
+		ns, sz := fsTotals(x.dir)
+		x.emit("stat", map[string]any{"messages": st.Messages, "segments": st.Segments, "size": st.Size,
+			"fsSegments": ns, "fsBytes": sz, "err": errClass(err), "errs": errStr(err), "first": true})
 	}
 	next, nerr := x.l.NextOffset()
 	if x.obs.Next {
